@@ -112,3 +112,21 @@ func init() {
 		c.R.Ok("X", "x", "", "dump")
 	}})
 }
+
+func init() {
+	register(&Prop{ID: "XGRAM", Run: func(c *Ctx) {
+		for _, e := range tlsExtensions(c) {
+			if e.Write == nil || e.Read == nil {
+				continue
+			}
+			res := checkEncoder(c, "X", e)
+			if res.lenMain == nil {
+				continue
+			}
+			enc, _ := encoderGrammar(res.fields, *res.lenMain, allowedGaps[e.Name])
+			dec := decoderGrammar(c.Info(), e.Write)
+			ok, why := grammarsAgree(enc, dec)
+			fmt.Printf("%-40s enc[%s] dec[%s] %v %s\n", e.Name, toksString(enc), toksString(dec), ok, why)
+		}
+	}})
+}
